@@ -119,6 +119,9 @@ var scens = []scen{
 	{Name: "c10-close-and-reopen-id", Props: []string{"C10"}, IDs: []uint32{1, 2}, Qlen: 8, Script: "reopen", Bound: [2]int{2, 4}},
 	{Name: "c10-traffic-for-closed-id", Props: []string{"C10"}, IDs: []uint32{1, 2}, Qlen: 2, Script: "closed-id-flood", Bound: [2]int{2, 4}},
 	{Name: "c10-traffic-for-closed-id-short-reads", Props: []string{"C10"}, IDs: []uint32{1, 2}, Qlen: 2, Script: "closed-id-flood", Short: true, Bound: [2]int{2, 3}},
+	{Name: "c11-close-before-unblock", Props: []string{"C11"}, IDs: []uint32{1}, Qlen: 8, Script: "close-blocked", Bound: [2]int{2, 4}},
+	{Name: "c11-listener-closed-after-mux", Props: []string{"C11"}, IDs: []uint32{3}, Qlen: 8, Script: "listener-after-mux-close", Bound: [2]int{2, 4}},
+	{Name: "c10-accepted-connection-queue", Props: []string{"C10"}, IDs: []uint32{3}, Qlen: 8, Script: "listener-queue", Bound: [2]int{2, 3}},
 	{Name: "c11-stale-handle-closed-again", Props: []string{"C11", "C10"}, IDs: []uint32{1, 2}, Qlen: 8, Script: "reopen-stale-close", Bound: [2]int{2, 4}},
 	{Name: "c11-listener", Props: []string{"C11"}, IDs: []uint32{3}, Qlen: 8, Listener: true,
 		Closers: []cspec{{"listener:A:3", 2}}, Bound: [2]int{3, 4}},
@@ -191,9 +194,17 @@ func (w *world) body(s *vsched.Sched) {
 		if sc.Qlen > 0 {
 			opts = append(opts, multiplex.WithReadQueueLength(sc.Qlen))
 		}
+		if sc.Script == "close-blocked" {
+			w.closeBlockedScenario(b, opts)
+			return
+		}
 		mux := map[string]multiplex.Mux{"A": multiplex.Multiplex(a, opts...), "B": multiplex.Multiplex(b, opts...)}
 		if sc.Listener {
 			w.listenerScenario(mux)
+			return
+		}
+		if sc.Script == "listener-after-mux-close" || sc.Script == "listener-queue" {
+			w.listenerScripts(mux)
 			return
 		}
 		if sc.Script != "" {
@@ -478,6 +489,129 @@ func (w *world) scriptScenario(mux map[string]multiplex.Mux) {
 			}
 		}
 	}
+	w.closedOK = true
+}
+
+// closeBlockedScenario: a mux created with its reader blocked (as the runtime creates every plugin's
+// mux) is closed before it was ever unblocked - once, twice and by two threads at once; Close returns,
+// reads and writes on its connections return errors, a later Unblock is harmless.
+func (w *world) closeBlockedScenario(trunk net.Conn, opts []multiplex.Option) {
+	note := func(f string, a ...any) { w.listenerV = append(w.listenerV, fmt.Sprintf(f, a...)) }
+	m := multiplex.Multiplex(trunk, append(append([]multiplex.Option{}, opts...), multiplex.WithBlockedRead())...)
+	c, err := m.Open(multiplex.ConnID(1))
+	if err != nil {
+		panic(err)
+	}
+	done := 0
+	for k := 0; k < 2; k++ {
+		vsched.Go(fmt.Sprintf("C%d", k), func() {
+			defer func() { done++ }()
+			m.Close()
+			m.Close()
+		})
+	}
+	var rerr error
+	vsched.Go("R", func() {
+		defer func() { done++ }()
+		_, rerr = c.Read(make([]byte, maxPayload+4))
+	})
+	vsched.Block("join", nil, func() bool { return done == 3 })
+	if rerr == nil {
+		note("Read on a connection of a mux closed before it was unblocked returned data")
+	}
+	if _, err := c.Write([]byte{1}); err == nil {
+		note("Write on a connection of a mux closed before it was unblocked succeeded")
+	}
+	m.Unblock()
+	m.Close()
+	w.accepts = append(w.accepts, "closed-before-unblock")
+	w.closedOK = true
+}
+
+// listenerScripts:
+//
+//	listener-after-mux-close: Listen, first Accept, a second Accept blocks; the mux is closed, then the
+//	                          listener: the blocked Accept returns, a later Accept returns at once.
+//	listener-queue:           the connection obtained through Listen/Accept has the configured queue
+//	                          length (8, longer than the default): six frames written before the first
+//	                          read are all delivered.
+func (w *world) listenerScripts(mux map[string]multiplex.Mux) {
+	note := func(f string, a ...any) { w.listenerV = append(w.listenerV, fmt.Sprintf(f, a...)) }
+	id := multiplex.ConnID(w.sc.IDs[0])
+	l, err := mux["B"].Listen(id)
+	if err != nil {
+		panic(err)
+	}
+	c, err := l.Accept()
+	if err != nil || c == nil {
+		note("first Accept failed: %v", err)
+		return
+	}
+	done := 0
+	switch w.sc.Script {
+	case "listener-after-mux-close":
+		var aerr error
+		var ac net.Conn
+		vsched.Go("Acc", func() {
+			defer func() { done++ }()
+			ac, aerr = l.Accept()
+		})
+		vsched.Go("Cl", func() {
+			defer func() { done++ }()
+			mux["B"].Close()
+			l.Close()
+		})
+		vsched.Block("join", nil, func() bool { return done == 2 })
+		if aerr == nil && ac != nil {
+			note("the listener handed its connection out a second time")
+		}
+		if _, err := l.Accept(); err == nil {
+			note("Accept after Close returned a connection")
+		}
+		w.accepts = append(w.accepts, "accept-returned")
+	case "listener-queue":
+		a, err := mux["A"].Open(id)
+		if err != nil {
+			panic(err)
+		}
+		const n = 6 // more than the (shrunk) default queue length 4, fewer than the configured 8
+		var got [][]byte
+		var rerr error
+		vsched.Go("W", func() {
+			defer func() { done++ }()
+			for k := 0; k < n; k++ {
+				if _, err := a.Write(payload(5, k, 2)); err != nil {
+					note("write #%d failed: %v", k, err)
+					return
+				}
+			}
+		})
+		vsched.Block("written", nil, func() bool { return done == 1 })
+		// give the reader of B the chance to queue everything before the first Read
+		vsched.Go("R", func() {
+			defer func() { done++ }()
+			rb := make([]byte, maxPayload+4)
+			for len(got) < n {
+				k, err := c.Read(rb)
+				if err != nil {
+					rerr = err
+					return
+				}
+				got = append(got, append([]byte(nil), rb[:k]...))
+			}
+		})
+		vsched.Block("join", nil, func() bool { return done == 2 })
+		okAll := rerr == nil && len(got) == n
+		for k := 0; okAll && k < n; k++ {
+			okAll = string(got[k]) == string(payload(5, k, 2))
+		}
+		if !okAll {
+			note("the accepted connection received %d of %d frames (err %v) although the receiver stayed within the configured queue length of %d: %x", len(got), n, rerr, w.sc.Qlen, got)
+		}
+		w.accepts = append(w.accepts, fmt.Sprintf("accepted-conn=%d", len(got)))
+	}
+	mux["A"].Close()
+	mux["B"].Close()
 	w.closedOK = true
 }
 
